@@ -114,6 +114,10 @@ def run_job(job):
     skey = vlib.sanitizer_key(err) if err else None
     if skey: res['sanitizer'] = skey; res['stderr'] = err[-3000:]
     if rc == -999: res['timeout'] = True
+    if rc == 4:
+        # watchdog: a hang is only a verdict when the backtrace shows the process inside the library; otherwise (loaded machine) inconclusive
+        if 'hfsm2' in (err or ''): res['hang'] = [l for l in err.split('\n') if 'hfsm2' in l][:3]
+        else: res['timeout'] = True
     try:
         header, ops, trailer, stray = logparse.parse(logp)
         if header is None and not skey: raise RuntimeError('log has no header')
@@ -224,8 +228,10 @@ def adjudicate(V, prop, results, shapeset, flavours, extra):
         elif r['rc'] not in (0,):
             if r['rc'] == 4:
                 p = 'C04' if prop == 'C04' else 'C11'
-                if p == prop: V.add('hang|watchdog', 1, {'rc': r['rc']}, run)
-                else: V.add_other(p, 'hang|watchdog', 1)
+                import re as _re
+                frame = _re.sub(r'[^A-Za-z_0-9:]', '', (r.get('hang') or ['?'])[0])[:60]
+                if p == prop: V.add('hang|inside-library-call', 1, {'rc': r['rc'], 'backtrace': r.get('hang')}, run)
+                else: V.add_other(p, 'hang|inside-library-call', 1)
             elif r['rc'] == 3 and prop != 'C11': V.add_other('C11', 'assert|too-many', 1)
             else:
                 p = 'C11'
